@@ -84,6 +84,7 @@ def make_ctx(n_branches, per_kind, sym_params, max_paths, budget_s):
     if sym_params:
         names += PARAM_NAMES
     ctx = Ctx([(n, "Real", "pos") for n in names], max_paths=max_paths, budget_s=budget_s)
+    ctx.allow_float = True      # tikz.render prints coordinates with round()/format(); no branch depends on the printed digits
     nb = 5 if per_kind else n_branches
     sizes = [(ctx.var(names[2 * i]), ctx.var(names[2 * i + 1])) for i in range(nb)]
     params = {p: ctx.var(p) for p in PARAM_NAMES} if sym_params else {}
